@@ -49,6 +49,11 @@ def programs(rnd, n):
         "n([H|T],f(A,B,C)) :- findall(Q, z(Q,R,S), L), w(L,M,N).\n",
         "k(X) :- X = f(A,B,C,D,E,F,G,H).\nk(Y) :- Y = g(Z1,Z2,Z3), j(Z3,Z2,Z1,Q1,Q2).\n",
     ]
+    hv = ["H%d" % i for i in range(16)]
+    bv = ["B%d" % i for i in range(40)]
+    goals = ", ".join("g%d(%s)" % (k, ",".join((hv + bv)[(k * 7 + j) % 56] for j in range(24))) for k in range(6))
+    fixed.append("wide(%s) :- %s.\n" % (",".join(hv), goals))
+    fixed.append("wide2(%s) :- ( a(%s) -> b(%s) ; c(%s) ), d(%s).\n" % (",".join(hv[:12]), ",".join(bv[:20]), ",".join(bv[10:30]), ",".join(bv[20:40]), ",".join(bv)))
     out.extend(fixed)
     # compilations that raise at different stages (syntax, visitor, code generation of an expression,
     # generator limits): whatever they leave behind must not change later outputs
